@@ -1,6 +1,6 @@
 (* C22 proofs, part 1: generic "one well-formed item" / round-trip lemmas over the
    minicbor call models; Point, Tip, keepalive, blockfetch, chainsync, txsubmission. *)
-From PV Require Import Lib.Base Cbor.Item Cbor.Enc Cbor.Dec Cbor.HeadLaws Cbor.Laws Cbor.Api C22.Model.
+From PV Require Import Lib.Base Cbor.Item Cbor.Enc Cbor.Dec Cbor.HeadLaws Cbor.Laws Cbor.Api Cbor.Skip Cbor.SkipLaws C22.Model.
 Open Scope Z_scope.
 
 Ltac rng := unfold u8b, u16b, u32b, u64b, u128b, u64_bound in *; lia.
@@ -85,11 +85,15 @@ Proof.
 Qed.
 Lemma is_enc_cbor_bytes b : wf_bytes b = true -> is_enc (e_cbor_bytes b).
 Proof. intros H. apply is_enc_tag; [rng|apply is_enc_bytes, H]. Qed.
-Lemma is_enc_raw x : is_item x = true -> is_enc x.
+Lemma is_item_spec x : is_item x = true ->
+  exists i, x = encode_item i /\ wf_item i = true /\ 2 * len x + 2 < u64_max.
 Proof.
-  unfold is_item. destruct (decode_all x) as [i| |] eqn:E; try discriminate. intros _.
+  unfold is_item. intros H. apply andb_true_iff in H as [H Hs]. apply Z.ltb_lt in Hs.
+  destruct (decode_all x) as [i| |] eqn:E; try discriminate.
   apply decode_all_sound in E as [-> Hi]. exists i. auto.
 Qed.
+Lemma is_enc_raw x : is_item x = true -> is_enc x.
+Proof. intros H. apply is_item_spec in H as (i & -> & Hi & _). exists i. auto. Qed.
 Lemma is_enc_vec {A} (enc : A -> list Z) xs :
   Forall (fun x => is_enc (enc x)) xs -> len xs < u64b -> is_enc (e_vec enc xs).
 Proof.
@@ -155,8 +159,10 @@ Qed.
 
 Lemma d_raw_e x r : is_item x = true -> d_raw (x ++ r) = DOk (x, r).
 Proof.
-  unfold is_item. destruct (decode_all x) as [i| |] eqn:E; try discriminate. intros _.
-  apply decode_all_sound in E as [-> Hi]. unfold d_raw. rewrite decode_complete by exact Hi. reflexivity.
+  intros H. apply is_item_spec in H as (i & -> & Hi & Hs).
+  unfold d_raw, d_skip_slice. rewrite skip_item by assumption. cbn [dbind].
+  rewrite app_length. replace (length (encode_item i) + length r - length r)%nat with (length (encode_item i)) by lia.
+  rewrite firstn_app, Nat.sub_diag, firstn_all. cbn [firstn]. rewrite app_nil_r. reflexivity.
 Qed.
 
 (* first byte of an encoded item is never the break *)
@@ -295,7 +301,10 @@ Proof. intros H. unfold enc_blockc, dec_blockc. dec_tac. Qed.
 Lemma skipped_enc (u : unit) : (fun _ : unit => true) u = true -> is_enc (enc_skipped u).
 Proof. intros _. unfold enc_skipped. enc_tac. Qed.
 Lemma skipped_rt (u : unit) r : (fun _ : unit => true) u = true -> dec_skipped (enc_skipped u ++ r) = DOk (u, r).
-Proof. intros _. destruct u. reflexivity. Qed.
+Proof.
+  intros _. destruct u. unfold dec_skipped, enc_skipped. change e_null with (encode_item CNull).
+  rewrite skip_item; [reflexivity|reflexivity|vm_compute; reflexivity].
+Qed.
 
 Lemma csh_wellformed m : csh_wf m = true -> is_enc (csh_enc m).
 Proof. exact (cs_wellformed enc_header dec_header wf_header header_enc header_rt m). Qed.
